@@ -778,7 +778,7 @@ func c19Sizes(hi int, lo, hiW int, extra int) mc.Harness {
 	return func(x *mc.Exec) {
 		debug.SetPanicOnFault(true)
 		var w, h int
-		mode := x.All("window", 3)
+		mode := x.All("window", 4)
 		switch mode {
 		case 0:
 			w, h = lo+x.All("w", span), lo+x.All("h", span)
@@ -786,6 +786,12 @@ func c19Sizes(hi int, lo, hiW int, extra int) mc.Harness {
 			w, h = hf.n, x.All("h", extra+1)
 		case 2:
 			w, h = x.All("w", extra+1), hf.n
+		case 3:
+			// sizes related to the required one by arithmetic a guard could get wrong: same pixel count,
+			// same perimeter, halves and doubles, the other hash size
+			sp := c19SpecialSizes(hf.n)
+			p := sp[x.All("special-size", len(sp))]
+			w, h = p[0], p[1]
 		}
 		kind := x.All("pixel-format", 3) // Gray, RGBA, YCbCr 4:2:0
 		hist := x.All("history", 3)      // pristine, after a valid hash, poisoned pools
@@ -862,6 +868,32 @@ func c19Sizes(hi int, lo, hiW int, extra int) mc.Harness {
 		}
 		x.Bulk = 5
 	}
+}
+
+func c19SpecialSizes(n int) [][2]int {
+	var out [][2]int
+	add := func(w, h int) {
+		if w >= 0 && h >= 0 && w*h <= 1<<20 && !(w == n && h == n) {
+			out = append(out, [2]int{w, h})
+		}
+	}
+	for d := 1; d <= n*n; d++ { // every divisor pair of n*n: same pixel count
+		if (n*n)%d == 0 {
+			add(d, n*n/d)
+		}
+	}
+	for d := 1; d < 2*n; d++ { // same perimeter
+		add(d, 2*n-d)
+	}
+	for _, k := range []int{n / 2, 2 * n, n * n, 8, 16, 32, 64, 128, 256, 512} {
+		add(k, k)
+		add(k, n)
+		add(n, k)
+		add(k, 2*n)
+	}
+	add(n*n, 0)
+	add(0, n*n)
+	return out
 }
 
 func c19Nil(x *mc.Exec) {
